@@ -65,6 +65,10 @@ R1 = {
         M("algo/Inv.tla", "algo/Inv_B6.cfg"), M("algo/Inv.tla", "algo/Inv_B8.cfg", workers=8),
         M("algo/Inv.tla", "algo/Inv_B6_pinned.cfg", expect_violation="InvModOK"),
         M("algo/Inv.tla", "algo/Inv_B9.cfg", tiers=T, workers=12),
+        M("algo/LimbConvert.tla", "algo/LimbConvert_sat2unsat_4_3.cfg"), M("algo/LimbConvert.tla", "algo/LimbConvert_sat2unsat_4_3_short.cfg"),
+        M("algo/LimbConvert.tla", "algo/LimbConvert_unsat2sat_3_4.cfg"), M("algo/LimbConvert.tla", "algo/LimbConvert_sat2unsat_5_3.cfg"),
+        M("algo/LimbConvert.tla", "algo/LimbConvert_sat2unsat_4_3_mut.cfg", expect_violation="ConvertOK"),
+        M("algo/LimbConvert.tla", "algo/LimbConvert_sat2unsat_6_4.cfg", tiers=T, workers=8), M("algo/LimbConvert.tla", "algo/LimbConvert_unsat2sat_4_6.cfg", tiers=T, workers=8),
         M("algo/SafeGcd.tla", "algo/SafeGcd_J6B6.cfg", workers=8), M("algo/SafeGcd.tla", "algo/SafeGcd_J5B6.cfg", workers=8),
         M("algo/SafeGcd.tla", "algo/SafeGcd_J8B7.cfg", tiers=T, workers=12), M("algo/SafeGcd.tla", "algo/SafeGcd_J8B9.cfg", tiers=T, workers=12, timeout=3000),
     ],
